@@ -591,6 +591,8 @@ def check_C08(tier):
                 (2, 0, 0, None), (4, 1, 0, None), (3, 2, 0, None)]
         per = 60
     # real spawned run started first? (no: it must not overlap the in-process runs that patch helpers)
+    # the refinement the replays rely on: abstract bags <-> concrete sketches, every schedule and placement
+    PA.composition_check(rep, 2 if quick else 3)
     batch, ok = _padd_replays(rep, rng, scen, per, combos, "c08")
     # merge-tree shape for every worker count 1..9 (odd counts carry a sketch over)
     if ok:
